@@ -233,6 +233,16 @@ func checkRecoverDiscipline(r *Run, prog *Program, pfx string) {
 			r.Check(pfx+".recover", "guarded-call:"+callee.Name(), prog.pos(c.Pos()), after && guardOK, "call to "+callee.Name()+" (which reads input / runs actions) is reachable before the deferred recover is installed")
 		}
 	}
+	// the recovering function itself never panics again: whatever was recovered becomes a recorded error
+	rePanic := false
+	for _, b := range recoverFn.Blocks {
+		for _, ins := range b.Instrs {
+			if _, ok := ins.(*ssa.Panic); ok {
+				rePanic = true
+			}
+		}
+	}
+	r.Check(pfx+".recover", "no-repanic", prog.pos(recoverFn.Pos()), !rePanic, "the function that recovers a panic raised while parsing panics again for some recovered values: an input could crash Parse / CreateEvaluator")
 	r.Check(pfx+".recover", "guarded-calls", prog.pos(parse.Pos()), n >= 2, fmt.Sprintf("info: %d input-dependent calls in (*parser).parse, all after the recover guard", n))
 	// the recover flag: written only by newParser (true) and by the Recover option (unused: checked by parser-option-unused)
 	for _, fa := range prog.FieldAccesses(prog.ModuleFuncs()) {
@@ -420,6 +430,9 @@ func init() {
 		checkCreateEvaluator(r, prog, a, ga, "c10")
 		checkRecoverDiscipline(r, prog, "c10")
 		checkParserOptionCallers(r, prog, "c10")
+		r.importing = "C18"
+		checkGetOpts(r, prog, a, "c18") // no budget unless one is asked for: CreateEvaluator accepts what grammar.Parse accepts
+		r.importing = ""
 		if ga != nil {
 			checkWellFormed(r, ga, "c10")
 			checkActionTyping(r, ga, "c10")
